@@ -212,7 +212,7 @@ pub fn run(tier: Tier) -> Run {
         }
     }
     // ---- the Builder half, decided by the vcalls binary over every instruction-emitting Builder method
-    let vcalls = crate::report::verif_root().join("harness").join("target").join("release").join("vcalls");
+    let vcalls = std::env::current_exe().ok().and_then(|e| e.parent().map(|d| d.join("vcalls"))).filter(|v| v.exists()).unwrap_or_else(|| crate::report::verif_root().join("harness").join("target").join("release").join("vcalls"));
     match std::process::Command::new(&vcalls).arg("--c16").output() {
         Ok(o) if o.status.success() => match serde_json::from_slice::<serde_json::Value>(&o.stdout) {
             Ok(d) => {
